@@ -560,6 +560,14 @@ pub fn gen_post(p: &mut Prng, sids: &[u32], tag: u64) -> PostCase {
         let v = gen_text(p, true, false);
         fields.push((k.into_bytes(), v.into_bytes()));
     }
+    if p.chance(1, 16) && !fields.is_empty() {
+        // a long non-ASCII value: the url-encoded body grows to 9..27 KB (rocket's default limit for a
+        // form is 32 KiB; nothing in the statement restricts the size of a parameter)
+        let n = p.range(1500, 4400) as usize;
+        let i = p.below(fields.len() as u64) as usize;
+        fields[i].1 = "\u{e9}".repeat(n).into_bytes();
+        kind.push_str("bigvalue ");
+    }
     if p.chance(1, 12) && !fields.is_empty() {
         // duplicate key
         let k = fields[p.below(fields.len() as u64) as usize].0.clone();
